@@ -58,37 +58,39 @@ def run(cx):
                 return "call:" + c.fn.split("::")[-1]
             return None
 
-        def edge_sym(a, bb, subj, labels, o):
-            lab = "|".join(sorted(labels))
-            if subj[0] == "discr":
-                u = subj[1]
-                root = strip_identity(u)
-                if root[0] == "call" and name_matches(root[1], "Future::poll"):
-                    return [] if lab == "Ready" else "pending"
-                if root[0] == "call" and name_matches(root[1], "Try::branch"):
-                    return "?" + lab
-                if term_has_call(u, f"{CM}::KnownPeers::get"):
-                    if mentions_field(u, "affinity"):
-                        return "aff=" + lab
-                    return "known=" + lab
-                if term_has_call(u, "Config::max_concurrent_connections"):
-                    return "limit=" + lab
-            n = normalize_cmp(subj)
-            if n is not None:
-                neg, op, x, y = n
-                xl = term_has_call(x, f"{CM}::ActivePeers::len")
-                yl = term_has_call(y, f"{CM}::ActivePeers::len")
-                xm = term_has_call(x, "Config::max_concurrent_connections")
-                ym = term_has_call(y, "Config::max_concurrent_connections")
-                if (xl and ym) or (xm and yl):
-                    tv = cmp_truth(op, xl, labels, neg)
-                    if tv is not None:
-                        return "len>=limit:" + str(tv).lower()
-                    return f"?cmp:{op}({'len' if xl else 'limit'},{'limit' if xl else 'len'})={lab}"
-            t = b.blocks[a]["t"]
-            if t.get("exp") and any(m in t["exp"] for m in ("anyhow", "format", "debug", "trace")):
-                return ""
-            return f"?cond({show(subj)[:60]})={lab}"
+        def mk_edge(bd):
+            def edge_sym(a, bb, subj, labels, o):
+                lab = "|".join(sorted(labels))
+                if subj[0] == "discr":
+                    u = subj[1]
+                    root = strip_identity(u)
+                    if root[0] == "call" and name_matches(root[1], "Future::poll"):
+                        return [] if lab == "Ready" else "pending"
+                    if root[0] == "call" and name_matches(root[1], "Try::branch"):
+                        return "?" + lab
+                    if term_has_call(u, f"{CM}::KnownPeers::get"):
+                        if mentions_field(u, "affinity"):
+                            return "aff=" + lab
+                        return "known=" + lab
+                    if term_has_call(u, "Config::max_concurrent_connections"):
+                        return "limit=" + lab
+                n = normalize_cmp(subj)
+                if n is not None:
+                    neg, op, x, y = n
+                    xl = term_has_call(x, f"{CM}::ActivePeers::len")
+                    yl = term_has_call(y, f"{CM}::ActivePeers::len")
+                    xm = term_has_call(x, "Config::max_concurrent_connections")
+                    ym = term_has_call(y, "Config::max_concurrent_connections")
+                    if (xl and ym) or (xm and yl):
+                        tv = cmp_truth(op, xl, labels, neg)
+                        if tv is not None:
+                            return "len>=limit:" + str(tv).lower()
+                        return f"?cmp:{op}({'len' if xl else 'limit'},{'limit' if xl else 'len'})={lab}"
+                t = bd.blocks[a]["t"]
+                if t.get("exp") and any(m in t["exp"] for m in ("anyhow", "format", "debug", "trace")):
+                    return ""
+                return f"?cond({show(subj)[:60]})={lab}"
+            return edge_sym
 
         def stmt_sym(bbi, s, o):
             if s["lhs"] == 0:
@@ -101,7 +103,8 @@ def run(cx):
                 return "ret=?" + show(t)[:50]
             return None
 
-        ws = words_of(b, call_sym, edge_sym, stmt_sym)
+        # small predicate helpers (e.g. an `is_exempt()` on the affinity) are inlined: the table is decided on what they test
+        ws = words_of(b, call_sym, mk_edge(b), stmt_sym, inline={"prog": prog, "edge_for": mk_edge})
         ws = {tuple(x for x in w if x != "") for w in ws}
         pre = "await(connecting) ?Continue lookup "
         hs = "handshake(connection) await(handshake) ret=handshake-result <return>"
